@@ -871,6 +871,12 @@ func (env *Env) evalCall(x *ast.CallExpr) Val {
 			s, _ := strconv.Unquote(x.Args[1].(*ast.BasicLit).Value)
 			tt := env.namedType(s, x)
 			return e.ifacePayload(v.C[0], tt)
+		case "nilref":
+			return Val{T: types.Typ[types.UnsafePointer], C: []string{"0"}}
+		case "asPtr":
+			v := env.eval(x.Args[0])
+			s, _ := strconv.Unquote(x.Args[1].(*ast.BasicLit).Value)
+			return Val{T: env.namedType(s, x), C: []string{v.C[0]}}
 		case "streq":
 			a := env.eval(x.Args[0])
 			b := env.eval(x.Args[1])
@@ -898,6 +904,13 @@ func (env *Env) evalCall(x *ast.CallExpr) Val {
 		case "b2i":
 			v := env.eval(x.Args[0])
 			return Val{T: types.Typ[types.Int], C: []string{e.byteToIdx(v.C[0])}}
+		case "live":
+			v := env.eval(x.Args[0])
+			if v.C[0] == "0" {
+				return Val{T: boolT, C: []string{"true"}}
+			}
+			h := e.heap("G!released", "Bool", false)
+			return Val{T: boolT, C: []string{or(eq(v.C[0], "0"), not(sx("select", e.heapTerm(env.st, h), v.C[0])))}}
 		case "held":
 			v := env.eval(x.Args[0])
 			h := e.heap("G!held", "Bool", false)
